@@ -483,6 +483,35 @@ mod n {
         );
     }
 
+    // polygons with more corners (L, U, staircase, 12-gon), both windings and every start vertex: exact integer areas
+    #[test]
+    fn n_c11_poly_large() {
+        drive("C11.poly.large", "Polygon::area / perimeter: 5 rectilinear / convex polygons with 6..12 corners x both windings x every start vertex x scale {0.5,1,2}", |c| {
+            let polys: Vec<Vec<(i64, i64)>> = vec![
+                vec![(0, 0), (6, 0), (6, 2), (2, 2), (2, 5), (0, 5)],
+                vec![(0, 0), (8, 0), (8, 6), (6, 6), (6, 2), (2, 2), (2, 6), (0, 6)],
+                vec![(0, 0), (4, 0), (4, 1), (3, 1), (3, 2), (2, 2), (2, 3), (1, 3), (1, 4), (0, 4)],
+                vec![(2, 0), (4, 0), (6, 1), (7, 3), (7, 5), (6, 7), (4, 8), (2, 8), (0, 7), (-1, 5), (-1, 3), (0, 1)],
+                vec![(0, 0), (3, 0), (5, 2), (5, 5), (2, 7), (-1, 5), (-2, 2)],
+            ];
+            let k = c.pick(polys.len());
+            let mut v = polys[k].clone();
+            if c.flag() {
+                v.reverse();
+            }
+            let shift = c.pick(v.len());
+            v.rotate_left(shift);
+            let sc = c.of(&[0.5f32, 1.0, 2.0]);
+            c.note(format!("polygon #{} ({} corners) start {} scale {}", k, v.len(), shift, sc));
+            let poly: Polygon = v.iter().map(|(x, y)| point![*x as f32 * sc, *y as f32 * sc]).collect();
+            let (a, p) = (poly.area(), poly.perimeter());
+            c.check("C11.poly.area", a as f64 == shoelace(&v) * (sc as f64) * (sc as f64), || format!("area {} want {}", a, shoelace(&v) * (sc * sc) as f64));
+            c.check("C11.poly.perimeter", approx64(p, perim(&v) * sc as f64, 1e-6, 1e-5), || format!("perimeter {} want {}", p, perim(&v) * sc as f64));
+            c.nontrivial(format!("{} {} {}", k, shift, sc));
+            c.sample(|| format!("polygon #{} -> area {} perimeter {}", k, a, p));
+        });
+    }
+
     // ---- C11 / C08 / C09: EnergyProps::from(&Model) ----------------------------------------------------
     const KINDS3: [SpaceType; 3] = [SpaceType::CONDITIONED, SpaceType::UNCONDITIONED, SpaceType::UNINHABITED];
     const BOUNDS: [BoundaryType; 4] = [BoundaryType::EXTERIOR, BoundaryType::GROUND, BoundaryType::INTERIOR, BoundaryType::ADIABATIC];
@@ -520,7 +549,10 @@ mod n {
         let nid = [None, Some(uid(0xA0)), Some(uid(0xA1)), Some(uid(0x9998))][nx];
         m.walls.push(wall(4, b, sid, nid, uid(0xC0), 90.0, 0.0, rect(4.0, 3.0), None));
         m.windows.push(window(0x11, uid(4), uid(0xD0), 1.0, 1.5, None, 0.0));
+        m.windows.push(window(0x12, uid(4), uid(0xD0), 0.5, 1.0, None, 0.0));
+        m.windows.push(window(0x13, uid(0x7777), uid(0xD0), 2.0, 1.0, None, 0.0));
         m.overrides.walls.insert(uid(4), WallPropsOverrides { u_value: Some(0.77) });
+        m.overrides.windows.insert(uid(0x12), WinPropsOverrides { u_value: None, f_shobst: Some(0.9) });
         m.overrides.windows.insert(uid(0x11), WinPropsOverrides { u_value: Some(1.23), f_shobst: Some(0.45) });
         let d = format!("s0(in={},{:?},x{}) s1(in={},{:?},x{}) w4({:?}, space#{}, next#{}) vent={:?} new={}", in0, k0, m0, in1, k1, m1, b, sp, nx, vent, newb);
         (m, d)
@@ -597,12 +629,24 @@ mod n {
                 // windows inherit envelope membership, boundary and multiplier from their wall
                 for w in &m.windows {
                     let wp = &p.windows[&w.id];
-                    let host = &p.walls[&w.wall];
-                    c.check("C08.window.inherits", wp.is_tenv == host.is_tenv && wp.multiplier == host.multiplier && wp.bounds == host.bounds && wp.orientation == host.orientation, || format!("window {}: {:?}", w.name, wp));
-                    c.check("C08.window.override", wp.u_value_override == Some(1.23) && wp.f_shobst_override == Some(0.45), || format!("window overrides {:?} {:?}", wp.u_value_override, wp.f_shobst_override));
+                    match p.walls.get(&w.wall) {
+                        Some(host) => c.check("C08.window.inherits", wp.is_tenv == host.is_tenv && wp.multiplier == host.multiplier && wp.bounds == host.bounds && wp.orientation == host.orientation && wp.tilt == host.tilt, || format!("window {}: {:?}", w.name, wp)),
+                        // a window whose wall is missing belongs to no envelope element
+                        None => c.check("C08.window.without_wall", !wp.is_tenv && wp.multiplier == 1.0, || format!("window {} without wall: {:?}", w.name, wp)),
+                    }
+                    let ov = m.overrides.windows.get(&w.id);
+                    c.check("C08.window.override", wp.u_value_override == ov.and_then(|o| o.u_value) && wp.f_shobst_override == ov.and_then(|o| o.f_shobst), || format!("window {} overrides {:?} {:?}", w.name, wp.u_value_override, wp.f_shobst_override));
                     let wc = m.cons.wincons.iter().find(|x| x.id == w.cons).unwrap();
                     c.check("C08.window.u", wp.u_value == wc.u_value(&m.cons), || format!("window u {:?}", wp.u_value));
-                    c.check("C11.window.area", wp.area == 1.5, || format!("window area {}", wp.area));
+                    c.check("C11.window.area", wp.area == w.geometry.width * w.geometry.height, || format!("window area {}", wp.area));
+                }
+                // the indicators see the two windows of wall 4 (and never the window without wall)
+                {
+                    let ind_k = m.energy_indicators().K_data;
+                    let w4 = &p.walls[&uid(4)];
+                    let counted = w4.is_tenv && (w4.bounds == BoundaryType::EXTERIOR || w4.bounds == BoundaryType::GROUND);
+                    let want = if counted { 2.0 * w4.multiplier as f64 } else { 0.0 };
+                    c.check("C08.windows_of_wall", approx64(ind_k.windows.a, want, 1e-5, 1e-5), || format!("window area in K {} want {}", ind_k.windows.a, want));
                 }
                 // ventilation rate reported with the indicators is the one used inside the U-value calculation
                 let used = m.global_ventilation_rate();
@@ -659,6 +703,15 @@ mod n {
             c.check("C11.scale.vol_net", (gs.vol_env_net - g1.vol_env_net * s3).abs() <= tol(s3) + 1e-4 * gs.vol_env_net, || format!("vol_net {} vs {} * {}", gs.vol_env_net, g1.vol_env_net, s3));
             c.check("C11.scale.compactness", (gs.compactness - g1.compactness * s).abs() <= 2e-3 * (1.0 + s), || format!("compactness {} vs {} * {}", gs.compactness, g1.compactness, s));
             c.check("C11.scale.sanity", g1.a_ref > 0.0 && g1.vol_env_net > 0.0 && g1.vol_env_net < g1.vol_env_gross && g1.compactness > 0.0, || format!("unit model: {:?}", g1));
+            // the unit model by hand: lower space 4x5 (height 3, covered from above by the floor of the upper space,
+            // 0.25 m thick), upper space 4x5 (height 2.5, roof 0.25 m)
+            let hab1 = in1 && k1 != SpaceType::UNINHABITED;
+            let a_ref = 20.0 * m0 as f64 + if hab1 { 20.0 } else { 0.0 };
+            let vg = 60.0 * m0 as f64 + if in1 { 50.0 } else { 0.0 };
+            let vn = 20.0 * 2.75 * m0 as f64 + if in1 { 20.0 * 2.25 } else { 0.0 };
+            c.check("C11.unit.a_ref", approx64(g1.a_ref, a_ref, 1e-5, 0.006), || format!("a_ref {} want {}", g1.a_ref, a_ref));
+            c.check("C11.unit.vol_gross", approx64(g1.vol_env_gross, vg, 1e-5, 0.006), || format!("vol_env_gross {} want {}", g1.vol_env_gross, vg));
+            c.check("C11.unit.vol_net", approx64(g1.vol_env_net, vn, 1e-5, 0.006), || format!("vol_env_net {} want {} (ceiling of the lower space is given from the upper space's side)", g1.vol_env_net, vn));
             c.nontrivial(format!("{} {} {} {:?}", s, in1, m0, k1));
             c.sample(|| format!("s={} in1={} m0={} -> a_ref {} vol {} / {} comp {}", s, in1, m0, gs.a_ref, gs.vol_env_gross, gs.vol_env_net, gs.compactness));
         });
